@@ -5,5 +5,6 @@ CONSTANTS
  R = 2
  MaxTime = 4
  MaxCalls = 6
+ WriteInLock = TRUE
  Recheck = TRUE
 CHECK_DEADLOCK FALSE
